@@ -414,7 +414,7 @@ def make_raising(exc_name, arg_kind):
     return _cache[name]
 
 
-VALUE_KINDS = ["scalar0d", "array1", "np-int", "len-raises", "lock", "generator", "tuple-keyed-dict", "huge-int", "set", "bytes", "nan", "file-handle", "mixed-key-dict"]
+VALUE_KINDS = ["scalar0d", "array1", "np-int", "np-shape", "len-raises", "lock", "generator", "tuple-keyed-dict", "huge-int", "set", "bytes", "nan", "file-handle", "mixed-key-dict"]
 
 
 def unusual_value(kind):
@@ -427,6 +427,13 @@ def unusual_value(kind):
         return _np.array([3.0])                # a one-point grid: an array, not a number
     if kind == "np-int":
         return _np.int64(3)                    # not JSON-serialisable as it stands
+    if kind == "np-shape":
+        class Grid:                            # array-like wrapper whose shape entries are numpy integers
+            shape = (_np.int64(4), _np.int64(2))
+
+            def __repr__(self):
+                return "Grid(4x2)"
+        return Grid()
     if kind == "len-raises":
         class OddSized:
             def __len__(self):
